@@ -104,7 +104,8 @@ class Check(object):
         if hasattr(self.prop, "GROUPS"):
             return self.prop.GROUPS
         return [dict(name="main", sidecars=self.prop.SIDECARS, units=self.prop.UNITS,
-                     lemmas=getattr(self.prop, "LEMMAS", []), strmode=getattr(self.prop, "STRMODE", "opaque"))]
+                     lemmas=getattr(self.prop, "LEMMAS", []), strmode=getattr(self.prop, "STRMODE", "opaque"),
+                     refinements=getattr(self.prop, "REFINEMENTS", []))]
 
     def run(self):
         errors, refuted, undecided = [], [], []
@@ -119,7 +120,8 @@ class Check(object):
             reg = R.load_registry(g["sidecars"])
             units = list(g["units"])
             lemmas = list(g.get("lemmas", []))
-            eng, results = R.generate(reg, units, lemmas, self.repo, scope=None, strmode=g.get("strmode", "opaque"))
+            eng, results = R.generate(reg, units, lemmas, self.repo, scope=None, strmode=g.get("strmode", "opaque"),
+                                      refinements=g.get("refinements", []))
             for ur in results:
                 if ur.error:
                     errors.append((ur.name, ur.error))
@@ -176,7 +178,8 @@ class Check(object):
             units = [u for u in g["units"] if "%s::%s" % u in open_units]
             lemmas = [l for l in g.get("lemmas", []) if "lemma::" + l["name"] in open_units]
             try:
-                eng, results = R.generate(reg, units, lemmas, self.repo, scope=k, strmode=g.get("strmode", "opaque"))
+                refs = [r for r in g.get("refinements", []) if any(n.startswith("refines::%s<=" % r[0][1]) for n in open_units)]
+                eng, results = R.generate(reg, units, lemmas, self.repo, scope=k, strmode=g.get("strmode", "opaque"), refinements=refs)
             except Exception as e:       # finite-scope rebuild is best effort
                 self.say("note: finite-scope %d generation failed: %s" % (k, e))
                 continue
